@@ -25,6 +25,14 @@ theorem samePostings_ignores_zero (a b : List P) (z : P) (hz : z.amount = 0) :
 theorem samePostings_refl (a : List P) : samePostings a a = true := by
   simp [samePostings]
 
+theorem samePostings_symm (a b : List P) : samePostings a b = samePostings b a := by
+  simp [samePostings, eq_comm]
+
+theorem samePostings_trans (a b c : List P) (h1 : samePostings a b = true) (h2 : samePostings b c = true) :
+    samePostings a c = true := by
+  simp [samePostings] at *
+  exact h1.trans h2
+
 example : samePostings [⟨"a", "b", "USD", 19⟩, ⟨"x", "b", "USD", 0⟩, ⟨"a", "b", "USD", 51⟩] [⟨"a", "b", "USD", 70⟩] = true := by
   decide
 
